@@ -65,9 +65,9 @@ class Codec:
             if r < 0.45:
                 out += ''.join(rng.choice('ab c1;[') for _ in range(rng.randint(0, 3)))
             elif r < 0.9:
-                out += '\x1b[' + ''.join(rng.choice('0123456789;? :<=>') for _ in range(rng.randint(0, 4))) + rng.choice('mmmJHK@~`{|}A')
+                out += '\x1b[' + ''.join(rng.choice('0123456789;? :<=>') for _ in range(rng.randint(0, 4))) + rng.choice('mmmJHK@~`{|}A[]\\BE')
             else:
-                out += rng.choice(['\x1b[', '\x1b[12;', '\x1b', '\x1b\x1b[', '['])
+                out += rng.choice(['\x1b[', '\x1b[12;', '\x1b', '\x1b\x1b[', '[', '\x1b[[A', '\x1b[[E1m', '\x1b[[', '\x1b[[Cx', '\x1b[1[B', '\x1b[]A', '\x1b[\\D'])
         return out
 
     def tokenize(self, s=None, flags=None):
@@ -222,6 +222,14 @@ class Codec:
                     toks = [int(t) for s in ss for t in str(s).split(';')]
                     if toks != codes:
                         viol.append(('C18', 'pgs_erroneous_tokens', '%r -> %r' % (arg, [str(s) for s in ss])))
+                pass
+            if add_err and junk and out[0] == 'ok' and all(str(i) in ('x', '?', ' 7 ') or isinstance(i, int) or str(i).isdigit() for i in items):
+                # "add_erroneous keeps every integer token": also when tokens that are no numbers sit among them
+                want_ints = [int(str(i)) for i in items if str(i).strip().isdigit()]
+                got_ints = [int(t) for s_ in ss for t in str(s_).split(';') if t.strip().isdigit()]
+                if (want_ints or [0]) != got_ints and want_ints != got_ints:
+                    viol.append(('C18', 'pgs_erroneous_tokens', '%r -> %r: integer tokens %r expected' % (arg, [str(s_) for s_ in ss], want_ints)))
+            if not junk:
                 if not codes and [str(s) for s in ss] != ['0']:
                     viol.append(('C18', 'pgs_empty', repr([str(s) for s in ss])))
         if out[0] == 'ok' and rng.random() < 0.5:
@@ -239,7 +247,7 @@ class Codec:
         rng = self.rng
         S = self.mod.AnsiSetting
         pool = ['1', '2', '22', '31', '34', '39', '38;5;9', '38;2;1;2;3', '0', '4', '21', '24', '10', '12', '58;5;1', '59',
-                '77', 'x', ' 1', '+1', '1;31', '38', '53', '55', '48;5;300', '-1', '1_1']
+                '77', 'x', ' 1', '+1', '1;31', '38', '53', '55', '48;5;300', '-1', '1_1', '-86', '-108', '-2']
         ss = [rng.choice(pool) for _ in range(rng.randint(0, 5))]
         old_ss = [rng.choice(pool[:20]) for _ in range(rng.randint(0, 4))]
         std = self.mod.settings_to_dict
@@ -262,6 +270,11 @@ class Codec:
                 viol.append(('C18', 'std_pure', 'arguments modified'))
             if d is old:
                 viol.append(('C18', 'std_pure', 'the result is the prior-state argument itself'))
+            if any(re.fullmatch(r'-\d+', t) for t in ss):
+                d_ref = call(lambda: std([S(t) for t in ss if not re.fullmatch(r'-\d+', t)], dict(old)))
+                if d_ref[0] != 'ok' or [(k, str(v)) for k, v in d_ref[1].items()] != [(k, str(v)) for k, v in d.items()]:
+                    viol.append(('C18', 'std_apply', 'negative numbers are no codes and contribute nothing: %r on %r gives %r, without them %r' % (
+                        ss, old_ss, [(k.name, str(v)) for k, v in d.items()], [(k.name, str(v)) for k, v in d_ref[1].items()] if d_ref[0] == 'ok' else d_ref[1])))
             if rng.random() < 0.5:
                 # the result belongs to the caller: writing into it must change neither the prior state given
                 # nor what a later call without prior state starts from
